@@ -1,11 +1,13 @@
 (* C05 — reading arbitrary bytes never panics, hangs or exhausts memory.
    Pinned statements only; proofs in proofs/OpenTotal.v, proofs/WalkProofs.v,
-   proofs/RefuseProofs.v (read-only queries) and proofs/ChainProofs.v.  In the
+   proofs/RefuseProofs.v (read-only queries), proofs/ChainProofs.v and
+   proofs/ReadonlyTotal.v (every read-only call after open).  In the
    model every Rust panic site is a [Panic] result and every loop runs on explicit
    fuel returning [OutOfFuel], so these are not artefacts of totalisation. *)
 From Cfb.model Require Import Base Names DirEnt State Alloc Dir Open Cfb.
 From Cfb.gen Require Import Consts.
-From Cfb.proofs Require Import WalkProofs OpenTotal RefuseProofs.
+From Cfb.model Require Import Mini Store Handle.
+From Cfb.proofs Require Import WalkProofs OpenTotal RefuseProofs ReadonlyTotal.
 Open Scope N_scope.
 
 (* for EVERY byte string, in both modes: Ok or an error value *)
@@ -50,3 +52,35 @@ Theorem C05_queries_only_refuse :
   forall f now o f' k, query o = true -> step f now o = (f', Err k) -> f' = f /\ precheck f o = Some k.
 Proof. exact precheck_complete_partial. Qed.
 Print Assumptions C05_queries_only_refuse.
+
+(* what directory validation establishes, in both modes: the entries reachable from the root
+   through left / right / child links form a finite forest without sharing, every node typed *)
+Theorem C05_validated_directory_is_a_forest :
+  forall strict ds, dir_validate strict ds = Ok tt -> DirTree ds.
+Proof. exact validated_directory_is_forest. Qed.
+Print Assumptions C05_validated_directory_is_a_forest.
+
+(* THE PROPERTY, for the model: for EVERY byte string that open accepts (either mode) and EVERY
+   sequence of read-only calls - exists / is_stream / is_storage / entry / root_entry /
+   read_storage / read_root / walk / walk_storage / flush / version / open_stream / read_to_end
+   through a fresh handle / read / fill_buf / consume (within the buffer: BufRead's contract) /
+   seek / len / position / drop on up to nh handles, any buffer size - every result is Ok or an
+   error value (never Panic, never OutOfFuel) and the file state is unchanged.  Every loop of
+   the model runs on fuel computed from table sizes, so "not OutOfFuel" is termination. *)
+Theorem C05_read_only_calls_never_panic_or_hang :
+  forall strict bytes s, open_model strict bytes = Ok s ->
+  forall f, cs f = s -> HandlesOk s (hs f) ->
+  forall l, ro_seq f l ->
+    Forall fine (snd (run_ops f l)) /\ cs (fst (run_ops f l)) = s /\ HandlesOk s (hs (fst (run_ops f l))).
+Proof. exact readonly_total. Qed.
+Print Assumptions C05_read_only_calls_never_panic_or_hang.
+
+(* the same from the state right after open (no handles yet), for call sequences that can be
+   described without looking at the state *)
+Theorem C05_read_only_calls_after_open :
+  forall strict bytes s mb nh, open_model strict bytes = Ok s ->
+  forall l, Forall (fun p => ro_op_static (snd p)) l ->
+    Forall fine (snd (run_ops (mkF s (repeatN None nh) mb) l)) /\
+    cs (fst (run_ops (mkF s (repeatN None nh) mb) l)) = s.
+Proof. exact readonly_total_fresh. Qed.
+Print Assumptions C05_read_only_calls_after_open.
